@@ -938,6 +938,16 @@ pub fn run(which: &'static str, tier: &str, seed: u64, out: &str, engine_plain: 
             std::process::exit(0);
         });
     }
+    std::thread::scope(|big_scope| {
+    // the long-thinking searchers run beside the sweeps (eight threads that think for seconds each)
+    let big_stages: Vec<u64> = if thorough { vec![300_000, 1_500_000, 6_000_000, 24_000_000] } else { vec![1_000_000, 4_000_000, 12_000_000] };
+    let big_handle = if which == "C07" {
+        let rep = &rep;
+        let stages = big_stages.clone();
+        Some(big_scope.spawn(move || par_map(&BIG_STATE_POSITIONS.to_vec(), |(name, fen)| big_state_point(rep, name, fen, &stages, None))))
+    } else {
+        None
+    };
     let mut per = Vec::new();
     let mut evaluations = 0u64;
     let mut nontrivial = 0u64;
@@ -1114,9 +1124,9 @@ pub fn run(which: &'static str, tier: &str, seed: u64, out: &str, engine_plain: 
         }
     }
     let mut big_part = J::Null;
-    if which == "C07" && !rep.saturated() {
-        let stages: Vec<u64> = if thorough { vec![300_000, 1_500_000, 6_000_000, 24_000_000] } else { vec![200_000, 1_000_000, 4_000_000] };
-        let res: Vec<(u64, u64, u64, u64)> = par_map(&BIG_STATE_POSITIONS.to_vec(), |(name, fen)| big_state_point(&rep, name, fen, &stages, None));
+    if let Some(h) = big_handle {
+        let stages = big_stages.clone();
+        let res: Vec<(u64, u64, u64, u64)> = h.join().unwrap_or_default();
         let j: u64 = res.iter().map(|r| r.0).sum();
         let sk: u64 = res.iter().map(|r| r.1).sum();
         evaluations += j + sk;
@@ -1174,6 +1184,7 @@ pub fn run(which: &'static str, tier: &str, seed: u64, out: &str, engine_plain: 
         ]
     };
     rep.finish("fault_enumeration", cov, assumptions, out);
+    });
 }
 
 pub fn replay_history(fen: &str, d: u8, at: u64) -> i32 {
